@@ -210,6 +210,19 @@ FORMS = [
     "ASSERT: var f = new Function('a', 'return [a, null]'); f(1)[1] === null && f(1).length === 2",
     "ASSERT: hostnone() === undefined && hostlist().length === 2 && hostdict().a === 1 && Array.isArray(hosttuple())",
     "hostlist()", "hostdict()", "hostnone()", "hosttuple()", "[1,2].map(hostid)", "Math.max.apply(null, [1,2])",
+    # capture groups that did not take part in a match are undefined wherever a script or host function can see them
+    "ASSERT: 'b'.replace(/(a)|(b)/, function (m, p1, p2, pos, s) { return String(p1 === undefined) + (typeof p1) + p2 + pos + s; }) === 'trueundefinedb0b'",
+    "ASSERT: 'xb'.replace(/(a)?b/g, function () { return arguments.length + ':' + (arguments[1] === undefined); }) === 'x4:true'",
+    "ASSERT: 'b'.replace(/(a)|(b)/, hostcheck) === 'true'", "ASSERT: 'bb'.replaceAll(/(a)|(b)/g, hostcheck) === 'truetrue'",
+    "ASSERT: 'b'.match(/(a)|(b)/)[1] === undefined && /(a)|(b)/.exec('b')[1] === undefined && 'b'.match(/(a)|(b)/).length === 3",
+    "ASSERT: 'xby'.split(/(a)|(b)/)[1] === undefined && 'xby'.split(/(a)|(b)/).length === 4",
+    "ASSERT: [1, 2].map(hostcheck).join() === 'true,true' && [1].forEach(hostcheck) === undefined && [3, 1].sort(function (a, b) { return hostcheck(a, b) ? a - b : 0; })[0] === 1",
+    "ASSERT: [1, 2].reduce(hostcheck) === true && [1].filter(hostcheck).length === 1 && [1].some(hostcheck) && [1].every(hostcheck) && [5].find(hostcheck) === 5",
+    "ASSERT: hostcheck.call(null, undefined, null) === true && hostcheck.apply(null, [1, 'a', {}]) === true && hostcheck.bind(null, 1)(2) === true",
+    # values without a JavaScript counterpart become undefined at every depth of what the embedder hands in
+    "ASSERT: typeof cfg.owner === 'undefined' && cfg.owner === undefined && cfg.l[0] === undefined && cfg.l.length === 3 && cfg.d.o === undefined && cfg.t === undefined",
+    "ASSERT: var n = 0; for (var k in cfg) { if (cfg[k] === undefined) n++; } n === 2",
+    "ASSERT: JSON.stringify(cfg.l) === '[null,null,1]'", "cfg", "cfg.l.concat(cfg.l)", "Object.values(cfg.d)",
 ]
 
 
@@ -217,7 +230,9 @@ FORMS = [
 def c03_forms(tier="quick", seed=0):
     out = []
     extra = {"hostfn": (lambda *a: 1), "hostlist": (lambda: [1, 2]), "hostdict": (lambda: {"a": 1}), "hostnone": (lambda: None),
-             "hosttuple": (lambda: (1, 2)), "hostid": (lambda x, *a: x)}
+             "hosttuple": (lambda: (1, 2)), "hostid": (lambda x, *a: x),
+             "hostcheck": (lambda *a: all(is_js_value(x) for x in a)),
+             "cfg": {"owner": {1, 2}, "l": [b"x", object(), 1], "d": {"o": frozenset()}, "t": (1, 2), "ok": "s"}}
     for i, form in enumerate(FORMS):
         bad = None
         n = 0
